@@ -1,7 +1,100 @@
-/- line-protocol handler for model "life" (stub until its model is built) -/
+/- line-protocol handler for model "life" (C13, connection lifetime); same line format and
+   canonical output as harness/inproc/h_timeout.c -/
+import LtVerif.Model.Lifecycle
 namespace Driver
+open LtVerif LtVerif.Lifecycle
+
+def lifeInt (s : String) : Option Int := s.toInt?
+
+def lifeBool (s : String) : Option Bool :=
+  match s.toInt? with
+  | some 0 => some false
+  | some _ => some true
+  | none => none
+
+def lifeCfgField (cfg : Cfg) (kv : String) : Option Cfg :=
+  match kv.splitOn "=" with
+  | [k, v] =>
+    if k = "eh" then some cfg else
+    match v.toInt? with
+    | none => none
+    | some x =>
+      let n := x.toNat
+      match k with
+      | "mc" => some { cfg with mc := n }
+      | "mf" => some { cfg with mf := n }
+      | "cf" => some { cfg with cf := x }
+      | "ri" => some { cfg with ri := n }
+      | "wi" => some { cfg with wi := n }
+      | "ka" => some { cfg with ka := n }
+      | "kr" => some { cfg with kr := n }
+      | "rs" => some { cfg with rs := n }
+      | "fs" => some { cfg with fs := n }
+      | "gt" => some { cfg with gt := n }
+      | _ => none
+  | _ => none
+
+def lifeCfg (s : String) : Option Cfg :=
+  (s.splitOn ",").foldlM lifeCfgField ({} : Cfg)
+
+def lifeOp (tok : String) : Option Op :=
+  match tok.toList with
+  | [] => none
+  | c :: rest =>
+    let f := (String.ofList rest).splitOn ","
+    match c, f with
+    | 't', [""] => some (.tick 1)
+    | 't', [n] => do some (.tick (← n.toNat?))
+    | 'o', [i] => do some (.open_ (← i.toNat?))
+    | 'q', i :: m :: k :: z :: h :: b :: more => do
+      let kind ← (match m with | "g" => some RKind.get | "p" => some RKind.post | "c" => some RKind.chunked | _ => none)
+      let big ← (match z with | "s" => some false | "b" => some true | _ => none)
+      let csz ← (match more with | [] => some 0 | [x] => x.toNat? | _ => none)
+      some (.prepare (← i.toNat?) { kind := kind, ka := (← k.toNat?) ≠ 0, big := big, H := (← h.toNat?),
+                                    B := (← b.toNat?), csz := csz })
+    | 's', [i] => do some (.send (← i.toNat?) 0)
+    | 's', [i, n] => do some (.send (← i.toNat?) (← n.toNat?))
+    | 'r', [i] => do some (.read (← i.toNat?))
+    | 'R', [i] => do some (.drain (← i.toNat?))
+    | 'f', [i] => do some (.fin (← i.toNat?))
+    | 'x', [i] => do some (.close (← i.toNat?))
+    | 'G', [""] => some .graceful
+    | 'W', [""] => some .wake
+    | _, _ => none
+
+def lifeStream (s : String) : Option H2Stream :=
+  match s.splitOn "," with
+  | [a, b, c] => do
+    let st ← CState.ofCode (← a.toNat?)
+    some { st := st, bodyPending := (← b.toNat?) ≠ 0, ri := (← c.toInt?) }
+  | _ => none
 
 def lifeLine : List String → String
+  | ["ct1", st, inEv, n, ver, rts, wts, cts, ka, ri, wi, now] =>
+    match st.toNat? >>= CState.ofCode, lifeBool inEv, n.toNat?, ver.toInt?, rts.toInt?, wts.toInt?,
+          cts.toInt?, ka.toInt?, ri.toInt?, wi.toInt?, now.toInt? with
+    | some st, some inEv, some n, some ver, some rts, some wts, some cts, some ka, some ri, some wi, some now =>
+      let r := checkTimeoutH1 { st := st, inEv := inEv, n := n, h1 := decide (ver ≤ 1), rts := rts, wts := wts,
+                                cts := cts, kaIdle := ka, ri := ri, wi := wi } now
+      s!"{if r.1 then 1 else 0} {r.2.code}"
+    | _, _, _, _, _, _, _, _, _, _, _ => "bad-op"
+  | "ct2" :: st :: rts :: wts :: ka :: wi :: now :: streams =>
+    match st.toNat? >>= CState.ofCode, rts.toInt?, wts.toInt?, ka.toInt?, wi.toInt?, now.toInt?,
+          streams.mapM lifeStream with
+    | some st, some rts, some wts, some ka, some wi, some now, some ss =>
+      if ss.length > 8 then "bad-op" else
+      let r := checkTimeoutH2 { st := st, streams := ss, rts := rts, wts := wts, kaIdle := ka, wi := wi } now
+      s!"{if r.1 then 1 else 0} {r.2.1.code} {if r.2.2 then 1 else 0}"
+    | _, _, _, _, _, _, _ => "bad-op"
+  | ["lc", cur, lo, hi, lim, dis] =>
+    match cur.toInt?, lo.toInt?, hi.toInt?, lim.toNat?, dis.toNat? with
+    | some cur, some lo, some hi, some lim, some dis => toString (loadCheck cur lo hi lim dis)
+    | _, _, _, _, _ => "bad-op"
+  | "sc" :: cfg :: ops =>
+    match lifeCfg cfg, ops.mapM lifeOp with
+    | some cfg, some ops =>
+      if ops.isEmpty then "-" else String.intercalate " | " (runObserve cfg (Sys.init cfg) ops)
+    | _, _ => "bad-op"
   | _ => "bad-op"
 
 end Driver
